@@ -567,7 +567,7 @@ def history(rng, max_m, want_unset):
             for r2 in range(1, nreg):
                 ops.append([4, 0, r2, 0]); m += sims[0].merge(sims[r2]); vals[0] += vals[r2]
         unset = sum(s.stats.get('unset', 0) for s in sims)
-        if 1 <= m <= max_m and vals[0] and (not want_unset or unset):
+        if nreg + 2 <= m <= max_m and vals[0] and (not want_unset or unset):      # at least one compaction (new level + fresh coin)
             return ops, m, 0, vals[0], dict(unset=unset, negated=any(c.state >= 2 for s in sims for c in s.comps))
     return None
 
@@ -577,12 +577,14 @@ def gen_c08(rng, tier):
     budget = 90000 if not thorough else 4000000       # total operations
     idx = 0
     while budget > 0 and idx < (14 if not thorough else 60):
-        max_m = rng.choice([4, 6, 8]) if not thorough else rng.choice([6, 8, 10, 12, 13])
+        max_m = rng.choice([4, 6, 8]) if not thorough else rng.choice([6, 8, 10, 11, 12])
         want_unset = idx % 4 == 1
         hst = history(rng, max_m, want_unset)
         if hst is None:
             continue
         hops, m, qr, vals, st = hst
+        if (1 << m) * (len(hops) + 12) > 200000:      # one case is one list for the extracted runner: keep it within its stack
+            continue
         lo, hi = min(vals), max(vals)
         pts = sorted(set([lo, hi, hi + 1] + [rng.choice(vals) for _ in range(3)] + [rng.randrange(lo, hi + 2) for _ in range(3)]))
         ops = []
@@ -608,7 +610,7 @@ def oracle_c08(case, irecs, mrecs):
     if not starts or len(irecs) < len(ops):
         return fails
     blocks = [(starts[b], starts[b + 1] if b + 1 < len(starts) else len(ops)) for b in range(len(starts))]
-    shape = None; seqs = set(); sums = {}; truth = {}; m = None
+    shape = None; seqs = set(); sums = {}; truth = {}; m = None; mdrawn = None
     for (a, b) in blocks:
         body = [op for op in ops[a:b] if op[0] != 98]
         if shape is None:
@@ -621,20 +623,29 @@ def oracle_c08(case, irecs, mrecs):
             drawn += irecs[i].get('E') or []
         left = [irecs[i].get('F') for i in range(a, b) if ops[i][0] == 97]
         if m is None:
-            m = len(scripted)
-        if len(drawn) != m or len(scripted) != m or drawn != scripted or (left and left[0] != [0]):
+            m = len(scripted); mdrawn = len(drawn)
+        # the scripts enumerate all 2^m vectors; an implementation that draws only the first m' <= m of them in every outcome
+        # (e.g. the unrepaired constructor, which draws no coin) still sees each of its 2^m' outcomes equally often, so the
+        # sum test below stays valid; what must not happen is a number of draws that varies with the outcomes
+        if len(scripted) != m or len(drawn) != mdrawn or len(drawn) > m or drawn != scripted[:len(drawn)] or \
+           (left and left[0] != [m - len(drawn)]):
             fails.append(dict(sig='req_flip_count_depends_on_outcome',
-                              what='coin outcome %s: %d coins drawn, %d expected (the number of flips must not depend on the outcomes)' % (scripted, len(drawn), m),
+                              what='coin outcome %s: %d coins drawn, %d in the first outcome (the number of flips must not depend on the outcomes)' % (scripted, len(drawn), mdrawn),
                               op_index=a))
             return fails
-        seqs.add(tuple(drawn))
+        seqs.add(tuple(scripted))
         for i in range(a, b):
             if ops[i][0] == 6:
                 R = irecs[i]['R']; S = (mrecs[i].get('S') if i < len(mrecs) else None)
-                if R == [-1] or not S:
+                if R == [-1] or len(R) < 2:
                     return fails
-                key = (i - a)
-                si, se = sums.get(key, (0, 0)); sums[key] = (si + R[0], se + R[1]); truth[key] = (S[0], S[1], ops[i][2])
+                key = (i - a); x = ops[i][2]
+                # every history ends with all registers merged into the queried one: the true rank is over all updates
+                allv = [op[2] for op in body if op[0] == 2]
+                ti = sum(1 for v in allv if v <= x); te = sum(1 for v in allv if v < x)
+                if S and (S[0] != ti or S[1] != te):
+                    fails.append(dict(sig='req_spec_truth', what='model ground truth disagrees with the script', op_index=i)); return fails
+                si, se = sums.get(key, (0, 0)); sums[key] = (si + R[0], se + R[1]); truth[key] = (ti, te, x)
     if m is None or len(seqs) != (1 << m) or len(blocks) != (1 << m):
         return fails                          # incomplete enumeration: nothing to conclude
     for key, (si, se) in sorted(sums.items()):
